@@ -493,10 +493,10 @@ func (c *Ctx) ruleR01f(rule string) {
 							}
 						}
 					}
-					lv := l
-					foldParserCount = &lv
+					lv, fl := l, allow
+					foldParserCount, foldBoolField = &lv, &fl
 					got := foldFuncEnv(lc, []bval{{known: true, i: n}}, capt, 0)
-					foldParserCount = nil
+					foldParserCount, foldBoolField = nil, nil
 					if !got.known || !got.isB {
 						undec = true
 						continue
